@@ -24,6 +24,8 @@ type solverPool struct {
 	totalS   float64
 	nQueries int
 	deadline time.Time
+	retryMu  sync.Mutex // undecided obligations are re-tried one at a time with a longer limit (load-induced timeouts)
+	retries  int
 }
 
 func newSolverPool(jobs int, timeout float64, dump string) *solverPool {
@@ -170,7 +172,17 @@ func (p *solverPool) submitFunc(c *FnCtx, fr *FuncResult) {
 			go func() {
 				defer p.wg.Done()
 				defer fwg.Done()
-				r := p.solveObl(c, parsed, o)
+				r := p.solveObl(c, parsed, o, p.timeout)
+				if r.Status == "unknown" && !strings.Contains(r.Output, "global budget exhausted") {
+					// undecided is usually a solver time limit hit under load: once more, alone, with three times the limit
+					p.retryMu.Lock()
+					p.retries++
+					r2 := p.solveObl(c, parsed, o, 3*p.timeout)
+					p.retryMu.Unlock()
+					r2.TimeS += r.TimeS
+					r2.Queries += r.Queries
+					r = r2
+				}
 				rmu.Lock()
 				defer rmu.Unlock()
 				res.TimeS += r.TimeS
@@ -203,7 +215,7 @@ func (p *solverPool) submitFunc(c *FnCtx, fr *FuncResult) {
 }
 
 // solveObl decides one obligation visit: unsplit first, then the declared case split.
-func (p *solverPool) solveObl(c *FnCtx, parsed []logLine, o *Obl) OblResult {
+func (p *solverPool) solveObl(c *FnCtx, parsed []logLine, o *Obl, tmo float64) OblResult {
 	res := OblResult{Status: "proved"}
 	getvals := c.getValueCmd()
 	var splits []SplitSpec
@@ -263,7 +275,7 @@ func (p *solverPool) solveObl(c *FnCtx, parsed []logLine, o *Obl) OblResult {
 		}
 		return res
 	}
-	first := p.timeout
+	first := tmo
 	if len(splits) > 0 && first > 0.4 {
 		first = 0.4
 	}
@@ -294,7 +306,7 @@ func (p *solverPool) solveObl(c *FnCtx, parsed []logLine, o *Obl) OblResult {
 	}
 	if r.status == "unsat" || r.status == "sat" || len(splits) == 0 {
 		if r.status == "unknown" || r.status == "error" {
-			r2 := try(nil, p.timeout, true)
+			r2 := try(nil, tmo, true)
 			if r2.status == "unsat" || r2.status == "sat" {
 				return finish(r2, "")
 			}
@@ -337,7 +349,7 @@ func (p *solverPool) solveObl(c *FnCtx, parsed []logLine, o *Obl) OblResult {
 			}
 			qb := c.buildQuery(parsed, o, extra, false)
 			q := qb + getvals
-			rk := p.solve(q, p.timeout)
+			rk := p.solve(q, tmo)
 			if rk.status == "sat" {
 				rk.query = qb
 			}
@@ -346,7 +358,7 @@ func (p *solverPool) solveObl(c *FnCtx, parsed []logLine, o *Obl) OblResult {
 			if (rk.status == "sat" && !o.Smoke) || (rk.status != "unsat" && rk.status != "sat") {
 				qb2 := c.buildQuery(parsed, o, extra, true)
 				q2 := qb2 + getvals
-				rk2 := p.solve(q2, p.timeout)
+				rk2 := p.solve(q2, tmo)
 				if rk2.status == "sat" {
 					rk2.query = qb2
 				}
